@@ -327,3 +327,20 @@ def pipeline(ctx):
     if p is None:
         p = ctx._pipeline = Pipeline(ctx)
     return p
+
+
+def depends_on(f, expr, name, depth=3):
+    """expr mentions ``name`` directly or through singly-defined locals."""
+    for x in ast.walk(expr):
+        if isinstance(x, ast.Name):
+            if x.id == name:
+                return True
+            if depth > 0:
+                defs = [n for n in own_nodes(f.node)
+                        if isinstance(n, ast.Assign) and any(
+                            isinstance(t, ast.Name) and t.id == x.id
+                            for t in n.targets)]
+                if len(defs) == 1 and defs[0].value is not expr and \
+                        depends_on(f, defs[0].value, name, depth - 1):
+                    return True
+    return False
